@@ -9,6 +9,8 @@ from . import ops
 def h_interleave(ctx, mods, shape):
     mon = sim.Monitor(ctx)
     pick = (lambda ready: ctx.choose(len(ready), 'device: which ready stream next')) if shape.get('pick') else None
+    if shape.get('device_first') is not None:
+        pick = lambda ready: 0          # always the oldest ready stream first (its packets pile up in the store of the other reader)
     st = Std(ctx, maxdata=4096, monitor=mon, pick=pick, sym_rid=shape.get('sym_rid', True))
     w = World(ctx, mods, st.dev, impl=shape['impl'], default_timeout=1)
     o = w.try_call('connect')
